@@ -542,6 +542,16 @@ package ss2022
 //@   callsite write: samearray(arg2, b) && sliceoff(arg2) == sliceoff(b) && len(arg2) == min(len(b), 65535) && len(arg2) >= 1
 //@   ensures isnil(err) ==> n == old(len(b))
 
+// Copying from a reader: whatever a Read handed over is sealed and written - exactly those bytes - before the
+// next Read and before returning, also when the Read reported an error (such as io.EOF) together with data.
+//@ func (*ShadowStreamConn).ReadFrom
+//@   requires !isnil(c) && sscWriteWF(c) && !samearray(c.writeBuf, c.writeCipher.nonce[:]) && $lastRead == 0
+//@   loop 0 modifies writeBuf[0:cap(writeBuf)], c.writeCipher.nonce[*]
+//@   loop 0 invariant sscWriteWF(c) && $lastRead == 0
+//@   callsite write: samearray(arg2, payloadBuf) && sliceoff(arg2) == sliceoff(payloadBuf) && len(arg2) == $lastRead && len(arg2) >= 1
+//@   callsite write: $lastRead := 0
+//@   ensures $lastRead == 0
+
 // Server side: the first Write sends the response header with as much of the data as fits the first chunk
 // and the rest as ordinary chunks; on success every byte was written.
 // (initWrite itself - salt, response header, two sealings into the header buffer - is not verified: its frame
